@@ -735,6 +735,8 @@ def _one_per_kind(specs):
     seen, out = set(), []
     for s in specs:
         opt = (s.get("mode"), s.get("axis"), s.get("cond_axis"), (s.get("idx") or {}).get("t"), s.get("n"))
+        if s["k"] == "Reshape":  # the target rank (incl. the scalar target ()) is a semantic option of Reshape
+            opt += (None if s.get("shape") is None else len(s["shape"]), None if s.get("cond") is None else len(s["cond"]))
         key = (_cls(s), opt)
         if key not in seen:
             seen.add(key)
